@@ -217,6 +217,10 @@ class _Gen:
         self.cont_n = 0
         self.const_n = 0
         self.alias_n = 0
+        # unit-level switches: shapes that keep a unit away from generated Python are confined to a share of the units
+        self.wrong_kind_names = draw(st.integers(0, 99)) < 35  # fields / nested enums carrying a hot name
+        self.foreign_nested = draw(st.integers(0, 99)) < 35  # D7 / N3 shapes may be chosen
+        self.odd_import_names = draw(st.integers(0, 99)) < 15  # `import Tiger "x.bitproto"`
 
     def width(self) -> int:
         self.k += 1
@@ -327,6 +331,9 @@ class _Gen:
             elif k < 90:
                 nf += 1
                 self.field_slot(m, FIELD_WORDS[(fw + nf) % len(FIELD_WORDS)], base=True)
+            elif not self.wrong_kind_names:
+                nf += 1
+                self.field_slot(m, FIELD_WORDS[(fw + nf) % len(FIELD_WORDS)])
             elif k < 96:
                 # a FIELD named like a hot type / constant: hides the outer definitions for what follows in this message
                 free = [x for x in HOT_TYPES + HOT_CONSTS if x not in self.declared(m)]
@@ -362,7 +369,7 @@ class _Gen:
                     r = d(st.integers(0, 9))
                     if r < 4:
                         an = asn[j]
-                    elif r == 4:
+                    elif r == 4 and self.odd_import_names:
                         an = HOT_TYPES[d(st.integers(0, len(HOT_TYPES) - 1))]  # an import named like a hot type
                     imp = Import(self.files[j], an)
                     imp.parent = f
@@ -514,7 +521,21 @@ def use_labels(u: Use, site: Site) -> List[str]:
     return labs
 
 
-def fill_slots(draw: Any, unit: Unit, slots: List[Use], want_bad: bool) -> Case:
+def _foreign_shape(f: File, text: str, target: Any) -> bool:
+    """D7 / N3: the target lives in another file and is nested in a message there, or is reached through two imports."""
+    if not isinstance(target, TYPE_KINDS):
+        return False
+    tf = file_of(target)
+    if tf is f:
+        return False
+    if enclosing_messages(target):
+        return True
+    if not any(i.file is tf for i in f.imports()):
+        return True
+    return text.count(".") >= 2
+
+
+def fill_slots(draw: Any, unit: Unit, slots: List[Use], want_bad: bool, foreign_nested: bool = True) -> Case:
     d = draw
     case = Case(unit, [])
     cands: Dict[int, List[str]] = {}
@@ -533,11 +554,15 @@ def fill_slots(draw: Any, unit: Unit, slots: List[Use], want_bad: bool) -> Case:
             classified[o].append((t, tgt))
         cnt = counts[id(f)]
         ok = classified["ok"]
+        if not foreign_nested:
+            ok = [x for x in ok if not _foreign_shape(f, x[0], x[1])]
         ok_nt = [x for x in ok if cnt.get(x[0].split(".")[-1], 0) >= 2]
         choice: Optional[Tuple[str, Any]] = None
         outcome = "ok"
         if si == bad_slot:
             pool = classified["undefined"] + classified["wrongkind"]
+            if classified["undefined"] and classified["wrongkind"]:
+                pool = classified["wrongkind"] if d(st.integers(0, 9)) < 4 else classified["undefined"]
             # prefer texts that would resolve somewhere else / later (the interesting rejections)
             hot = [x for x in pool if x[0].split(".")[0] in cnt or x[0].split(".")[-1] in cnt]
             pool2 = hot if hot and d(st.integers(0, 9)) < 8 else pool
@@ -546,7 +571,7 @@ def fill_slots(draw: Any, unit: Unit, slots: List[Use], want_bad: bool) -> Case:
                 outcome = resolve(site, choice[0], want)[0]
         if choice is None and d(st.integers(0, 9)) < 3:
             # free draw over ALL texts: what falls under the excluded class is counted and replaced
-            allc = [(t, o) for o in ("ok", "excluded") for (t, _) in classified[o]]
+            allc = [(t, "ok") for (t, _) in ok] + [(t, "excluded") for (t, _) in classified["excluded"]]
             if allc:
                 t, o = allc[d(st.integers(0, len(allc) - 1))]
                 if o == "excluded":
@@ -595,7 +620,7 @@ def cases(draw: Any) -> Case:
     unit = Unit(g.files)
     set_parents(unit)
     want_bad = draw(st.integers(0, 9)) < 3
-    return fill_slots(draw, unit, g.slots, want_bad)
+    return fill_slots(draw, unit, g.slots, want_bad, g.foreign_nested)
 
 
 # ---------------------------------------------------------------------------
